@@ -454,6 +454,31 @@ func oddSymbolScenarios() []refScenario {
 	return out
 }
 
+// joinedSymbolScenarios: two overlapping groups "rel" and "cand" next to ONE group whose symbol is their two symbols
+// joined by a character a list of symbols might be joined with (space, comma, slash, bar ...): a reference in both of
+// the former and a reference in the latter alone are classified differently, in either order of the references.
+func joinedSymbolScenarios() []refScenario {
+	var out []refScenario
+	for i, sep := range []string{" ", ",", "/", "|", ";", ":", "+", "\t", "  "} {
+		for j, swap := range []bool{false, true} {
+			both, alone := "refs/m/c/1", "refs/n/1" // for-each-ref order: both first
+			if swap {
+				both, alone = "refs/n/c/1", "refs/m/1" // alone first
+			}
+			dir := func(r string) string { return r[:strings.LastIndex(r, "/")] }
+			sc := refScenario{ID: fmt.Sprintf("js%d-%d", i+1, j+1), Class: "joined-symbols",
+				Refs: conflictFree([]string{"refs/heads/main", "refs/tags/v1", both, alone, dir(dir(both)) + "/2"})}
+			sc.Config = []cfgEntry{
+				{Scope: "local", Section: "refgroup", Sub: "rel", Key: "include", Value: sp(dir(dir(both)))},
+				{Scope: "local", Section: "refgroup", Sub: "cand", Key: "include", Value: sp(dir(both))},
+				{Scope: "local", Section: "refgroup", Sub: "rel" + sep + "cand", Key: "include", Value: sp(dir(alone))},
+			}
+			out = append(out, sc)
+		}
+	}
+	return out
+}
+
 // prefixSymbolScenarios: reference groups whose symbols are prefixes of one another AS STRINGS without being
 // ancestors (rel / release, a.b / a.bc, o / other-like, tags / tags-old), in both configuration orders, with the
 // shorter-named group empty, sparse or as full as the longer-named one.
@@ -656,11 +681,13 @@ func checkC07(c *Ctx) {
 		scs = append(scs, builtinBoundaryScenarios()...)
 		scs = append(scs, prefixSymbolScenarios()...)
 		scs = append(scs, oddSymbolScenarios()...)
+		scs = append(scs, joinedSymbolScenarios()...)
 	} else {
 		scs = append(scs, forestScenarios(rng, 1000)...)
 		scs = append(scs, builtinBoundaryScenarios()...)
 		scs = append(scs, prefixSymbolScenarios()...)
 		scs = append(scs, oddSymbolScenarios()...)
+		scs = append(scs, joinedSymbolScenarios()...)
 	}
 	// however deeply nested: chains of 1..24 groups
 	for d := 1; d <= 24; d++ {
